@@ -14,9 +14,12 @@ Everything is proved for EVERY hash function `H` (the driver instantiates SHA-25
 * `hE : H [] = emptySum` — the literal `EMPTY_SUM` of fuel-merkle is the hash of the empty string (the root
   of a contract with empty code); as in C09, checked for SHA-256 on every run (stream c15, line `K`).
 * `code.length < 2^64` — the length of a Rust slice (gives fewer than 2^63 leaves, C09's range).
+* `∀ x, (H x).length = 32` — only for the state-root clause (the sparse tree is keyed by `H key`, and its
+  keys are 32 bytes).
 * `Smt.FromSetStatement H` — C12's from_set clause (`root_from_set` = the compact sparse root of the set
-  seen as a map), which C12 states but does NOT prove. It is a NAMED HYPOTHESIS of `stateRoot_eq_specRoot`
-  and of nothing else; the cases of zero and one slot are proved without it.
+  seen as a map), which `Props/C12.lean` states without proof. `stateRoot_eq_specRoot` takes it as a NAMED
+  HYPOTHESIS; `Props/C12FromSet.lean` now PROVES it for every `H` (`Smt.fromSetStatement_holds`), and
+  `stateRoot_spec` / `stateRoot_statement` below are the resulting hypothesis-free state-root clause.
 
 The statement's leaf list is `specLeaves` (Model/ContractId.lean), written with the literal numbers 16384 / 8 / 0;
 `constants_match_statement` ties the constants regenerated from the Rust sources to those numbers, so an edit
@@ -27,6 +30,7 @@ import FuelVerif.Basic.ExceptDec
 import FuelVerif.Lemmas.ContractId
 import FuelVerif.Props.C09
 import FuelVerif.Props.C12
+import FuelVerif.Props.C12FromSet
 namespace FuelVerif.Ids
 open FuelVerif
 
@@ -162,7 +166,8 @@ replaces an earlier one -/
 def slotMap (H : Bytes → Bytes) (slots : List Slot) : List (Bytes × Bytes) :=
   slots.foldl (fun m s => Smt.alInsert (H s.1) (H s.2) m) []
 
-/-- **state root clause** (rests on C12's unproved `FromSetStatement`, a named hypothesis): for every list
+/-- **state root clause, relative to C12's `FromSetStatement`** (kept as a named hypothesis here; discharged
+in `stateRoot_spec`): for every list
 of storage slots, `Contract::initial_state_root` succeeds and is the compact sparse Merkle root (C12's
 `specRoot` over the 256 key bits, leaf = H(0x00‖key‖H(value)), node = H(0x01‖l‖r), empty = 32 zero bytes)
 of the slots keyed by the hash of their keys. -/
@@ -180,21 +185,32 @@ theorem stateRoot_eq_specRoot (H : Bytes → Bytes) (hl : ∀ x, (H x).length = 
   refine ⟨r, h1, ?_⟩
   simp only [initialStateRoot, h2]
 
-/-- FULL STATEMENT of the state-root clause without the hypothesis (what remains to be proved is exactly
-C12's `FromSetStatement`) -/
+/-- FULL STATEMENT of the state-root clause (no `FromSetStatement` hypothesis) -/
 def StateRootStatement (H : Bytes → Bytes) : Prop :=
   ∀ slots : List Slot,
     ∃ r, Smt.specRoot SmtBytes.bitOf (SmtBytes.hashes H) 256 0 (slotMap H slots) = some r ∧
       initialStateRoot H slots = .ok r
 
-/-- no slots (`Contract::default_state_root`): 32 zero bytes — proved without `FromSetStatement` -/
-theorem stateRoot_empty_partial (H : Bytes → Bytes) :
+/-- **state root clause, hypothesis-free**: for every hash function with 32-byte output and every list of
+storage slots (any order, duplicates allowed — the later slot wins), `Contract::initial_state_root` succeeds
+and is the compact sparse Merkle root of the slots keyed by the hash of their keys
+(`Smt.fromSetStatement_holds`, the proof of `from_set`, discharges the hypothesis) -/
+theorem stateRoot_spec (H : Bytes → Bytes) (hl : ∀ x, (H x).length = Gen.Sparse.keyBytes) (slots : List Slot) :
+    ∃ r, Smt.specRoot SmtBytes.bitOf (SmtBytes.hashes H) 256 0 (slotMap H slots) = some r ∧
+      initialStateRoot H slots = .ok r :=
+  stateRoot_eq_specRoot H hl (Smt.fromSetStatement_holds H) slots
+
+theorem stateRoot_statement (H : Bytes → Bytes) (hl : ∀ x, (H x).length = Gen.Sparse.keyBytes) :
+    StateRootStatement H := fun slots => stateRoot_spec H hl slots
+
+/-- no slots (`Contract::default_state_root`): 32 zero bytes (any `H`) -/
+theorem stateRoot_empty (H : Bytes → Bytes) :
     initialStateRoot H [] = .ok (List.replicate 32 0) ∧ defaultStateRoot H = .ok (List.replicate 32 0) ∧
     Smt.specRoot SmtBytes.bitOf (SmtBytes.hashes H) 256 0 (slotMap H []) = some (List.replicate 32 0) := by
   exact ⟨rfl, rfl, rfl⟩
 
-/-- one slot: the root is the leaf hash H(0x00 ‖ H(key) ‖ H(value)) — proved without `FromSetStatement` -/
-theorem stateRoot_singleton_partial (H : Bytes → Bytes) (k v : Bytes) :
+/-- one slot: the root is the leaf hash H(0x00 ‖ H(key) ‖ H(value)) (any `H`) -/
+theorem stateRoot_singleton (H : Bytes → Bytes) (k v : Bytes) :
     initialStateRoot H [(k, v)] = .ok (H (0x00 :: (H k ++ H v))) ∧
     Smt.specRoot SmtBytes.bitOf (SmtBytes.hashes H) 256 0 (slotMap H [(k, v)]) = some (H (0x00 :: (H k ++ H v))) := by
   have hp : SmtStore.Prefix.leaf.byte = (0x00 : UInt8) := by decide
@@ -420,6 +436,39 @@ theorem precompute_error (H : Bytes → Bytes) (hE : H [] = BMT.emptySum) (c : C
       rootFromCode_eq_mth H hE _ hl, hr]
     exact ⟨_, rfl⟩
 
+/-- **all four identifiers of a Create at once** (hypothesis-free for 32-byte hashes): `precompute` fails only
+with the witness-index error; otherwise the cached metadata is
+(H("FUEL"‖salt‖code root‖state root), code root = mth of the statement's leaves, state root = compact sparse
+root of the slots keyed by H(key)) -/
+theorem create_ids_spec (H : Bytes → Bytes) (hE : H [] = BMT.emptySum) (hl : ∀ x, (H x).length = Gen.Sparse.keyBytes)
+    (c : Create) (hw : ∀ w ∈ c.witnesses, w.length < 2 ^ 64) :
+    (c.witnesses.length ≤ c.bytecodeWitnessIndex →
+      c.precompute H = ({ c with metadata := none }, .error .TransactionCreateBytecodeWitnessIndex)) ∧
+    (∀ code, c.witnesses[c.bytecodeWitnessIndex]? = some code →
+      ∃ sroot c', Smt.specRoot SmtBytes.bitOf (SmtBytes.hashes H) 256 0 (slotMap H c.storageSlots) = some sroot ∧
+        c.precompute H = (c', .ok ()) ∧
+        c'.metadata = some
+          { contractId := H (seedFUEL ++ c.salt ++ BMT.mth H (specLeaves code) ++ sroot),
+            contractRoot := BMT.mth H (specLeaves code), stateRoot := sroot }) := by
+  obtain ⟨r, hr1, hr2⟩ := stateRoot_spec H hl c.storageSlots
+  have hpe := precompute_error H hE c hw ⟨r, hr2⟩
+  refine ⟨hpe.1, fun code hcode => ?_⟩
+  have hi : c.bytecodeWitnessIndex < c.witnesses.length := by
+    by_cases h : c.bytecodeWitnessIndex < c.witnesses.length
+    · exact h
+    · rw [List.getElem?_eq_none (by omega)] at hcode; cases hcode
+  obtain ⟨c', hc'⟩ := hpe.2 hi
+  obtain ⟨code', sroot, hb, hs, hm⟩ := metadata_formula H hE c c' hc'
+  have e1 : code' = code := by
+    simp only [Create.bytecode, hcode, Except.ok.injEq] at hb
+    exact hb.symm
+  have e2 : sroot = r := by
+    rw [hr2] at hs
+    exact (Except.ok.inj hs).symm
+  subst e1; subst e2
+  have hmem : code' ∈ c.witnesses := List.mem_of_getElem? hcode
+  exact ⟨sroot, c', hr1, hc', hm (hw code' hmem)⟩
+
 /-! ## non-vacuity: concrete instances (toy hash with `H [] = emptySum`; small chunk sizes evaluated by the kernel) -/
 
 def toyH : Bytes → Bytes := BMT.toyHash
@@ -452,7 +501,7 @@ def demoCreate : Create :=
   { bytecodeWitnessIndex := 1, salt := List.replicate 32 9, storageSlots := [], witnesses := [[], [1, 2, 3]] }
 
 example : ∃ c', demoCreate.precompute toyH = (c', .ok ()) :=
-  (precompute_error toyH rfl demoCreate (by decide) ⟨_, (stateRoot_empty_partial toyH).1⟩).2 (by decide)
+  (precompute_error toyH rfl demoCreate (by decide) ⟨_, (stateRoot_empty toyH).1⟩).2 (by decide)
 
 example : (demoCreate.precompute toyH).1.metadata = some
     { contractId := seedFUEL ++ List.replicate 32 9 ++ [0, 1, 2, 3, 0, 0, 0, 0, 0] ++ List.replicate 32 0,
